@@ -13,3 +13,9 @@ package maincmd
 //@   allows[C05] fswrite(h) if opts.am_sender == 0 && (h == nil || rootPath(h) == paths[0])
 //@   allows[C05] fsread(h) if opts.am_sender != 0 || h == nil || rootPath(h) == paths[0]
 //@   allows[C05] srcread(h) if opts.am_sender != 0
+
+// ---------------------------------------------------------------- C14: options reach the receiving code unchanged
+// The receiver's TransferOpts are the parsed options, field by field (the
+// same mapping on the client and in the daemon).
+//@ func maincmd.ClientRun
+//@   at[C14] (*receiver.Transfer).ReceiveFileList: assert [options-mapped-one-to-one] arg0.Opts.PreserveUid == (opts.preserve_uid != 0) && arg0.Opts.PreserveGid == (opts.preserve_gid != 0) && arg0.Opts.PreserveLinks == (opts.preserve_links != 0) && arg0.Opts.PreservePerms == (opts.preserve_perms != 0) && arg0.Opts.PreserveDevices == (opts.preserve_devices != 0) && arg0.Opts.PreserveSpecials == (opts.preserve_specials != 0) && arg0.Opts.PreserveTimes == (opts.preserve_mtimes != 0) && arg0.Opts.AlwaysChecksum == (opts.always_checksum != 0) && arg0.Opts.IgnoreTimes == (opts.ignore_times != 0) && arg0.Opts.DryRun == (opts.dry_run != 0) && arg0.Opts.DeleteMode == (opts.delete_mode != 0)
